@@ -683,8 +683,37 @@ def arange(*a, **k):
 
 def linspace(*a, **k):
     if _any_sym(a):
-        raise ShimUnsupported('linspace on symbolic bounds')
+        # symbolic bounds: start + i * (stop - start) / (num - 1) over exact reals (numpy's own rounding of the step is not modelled)
+        start, stop = a[0], a[1]
+        num = a[2] if len(a) > 2 else k.pop('num', 50)
+        if k.pop('endpoint', True) is not True or k or len(a) > 3 or is_sym(num) or _is_shim(num):
+            raise ShimUnsupported('linspace on symbolic bounds with these arguments')
+        num = int(num)
+        s0 = _w(start)._single() if _is_shim(start) else start
+        s1 = _w(stop)._single() if _is_shim(stop) else stop
+        s0, s1 = E.to_real(s0, None) if is_sym(s0) else s0, E.to_real(s1, None) if is_sym(s1) else s1
+        f64 = rnp.dtype('float64')
+        step = E.elem_binop('truediv', E.elem_binop('sub', s1, s0, f64), num - 1, f64) if num > 1 else 0
+        c = rnp.empty(num, dtype=object)
+        for i in range(num):
+            c[i] = E.elem_binop('add', s0, E.elem_binop('mul', step, i, f64), f64) if i else s0
+        return ndarray_impl(c, f64)
     return _from_real(rnp.linspace(*_real_arg(a), **_real_arg(k)))
+
+
+def isclose(a, b, rtol=1e-05, atol=1e-08, equal_nan=False):
+    a, b = _w(a), _w(b)
+    if not a.sym and not b.sym:
+        return _from_real(rnp.isclose(a.typed(), b.typed(), rtol=rtol, atol=atol, equal_nan=equal_nan))
+    if equal_nan:
+        raise ShimUnsupported('isclose(equal_nan=True) on symbolic arguments')
+    f64 = rnp.dtype('float64')
+    return _binop('le', absolute(_binop('sub', a.astype(f64), b.astype(f64))), _binop('add', const(rnp.float64(atol)), _binop('mul', const(rnp.float64(rtol)), absolute(b.astype(f64)))))
+
+
+def allclose(a, b, rtol=1e-05, atol=1e-08, equal_nan=False):
+    r = all(isclose(a, b, rtol=rtol, atol=atol, equal_nan=equal_nan))
+    return builtins.bool(r) if not _w(r).sym else r
 
 
 # ---------------------------------------------------------------------------------------------
@@ -889,6 +918,27 @@ def minimum(a, b, **kw):
     if kw:
         raise E.ShimUnsupported(f'minimum keyword arguments {sorted(kw)}')
     return _maxmin('min', a, b)
+
+
+def nan_to_num(x, copy=True, nan=0.0, posinf=None, neginf=None):
+    a = _w(x)
+    if not a.sym:
+        return _from_real(rnp.nan_to_num(a.typed(), copy=True, nan=nan, posinf=posinf, neginf=neginf))
+    if a.dtype.kind != 'f':
+        return a.copy() if copy else a
+    fi = rnp.finfo(a.dtype)
+    hi = float(fi.max) if posinf is None else posinf
+    lo = float(fi.min) if neginf is None else neginf
+
+    def f(e):
+        if E.is_special(e):
+            return nan if e != e else (hi if e > 0 else lo)
+        return e
+    r = ndarray_impl(rnp.frompyfunc(f, 1, 1)(a.c) if a.c.ndim else _obj0(f(a.c[()])), a.dtype)
+    if not copy:
+        a.c[...] = r.c
+        return x
+    return r
 
 
 def less(a, b): return _binop('lt', _w(a), b)
